@@ -169,7 +169,7 @@ int main(int argc, char **argv) {
       << ",\"paths_budget\":" << ex.pathsBudget << ",\"paths_pending\":" << ex.work.size() << ",\"forks\":" << ex.forks << ",\n";
     o << " \"paths_with_symbolic_assert\":" << ex.pathsWithSymAssert << ",\"asserts_checked\":" << ex.assertsChecked << ",\"asserts_symbolic\":" << ex.assertsSymbolic << ",\n";
     o << " \"instructions\":" << ex.totalInsns << ",\n";
-    o << " \"queries\":{\"total\":" << ex.qTotal << ",\"sat\":" << ex.qSat << ",\"unsat\":" << ex.qUnsat << ",\"unknown\":" << ex.qUnknown << ",\"fp_bitblast\":" << ex.qHeavy << ",\"slowest_s\":" << ex.slowestQ << "},\"solver_s\":" << ex.solverS << ",\"wall_s\":" << ex.elapsed() << ",\n";
+    o << " \"queries\":{\"total\":" << ex.qTotal << ",\"sat\":" << ex.qSat << ",\"unsat\":" << ex.qUnsat << ",\"unknown\":" << ex.qUnknown << ",\"decided_from_path_facts\":" << ex.qCached << ",\"fp_bitblast\":" << ex.qHeavy << ",\"slowest_s\":" << ex.slowestQ << "},\"solver_s\":" << ex.solverS << ",\"wall_s\":" << ex.elapsed() << ",\n";
     o << " \"reach\":{";
     { bool first = true; for (auto &kv : ex.reachCount) { if (!first) o << ","; first = false; o << "\"" << jesc(kv.first) << "\":" << kv.second; } }
     o << "},\n \"reach_missing\":[";
